@@ -41,6 +41,9 @@ MUTATIONS = [
  ('m31', 'C13', 'src/sampler.rs', r's/Ok\(\(Some\(err\), trace\)\) => return SamplerWaitResult::Err\(err, Some\(trace\)\),/Ok((Some(_err), trace)) => return SamplerWaitResult::Trace(trace),/', 'wait_timeout reports success although finalisation failed'),
  ('m32', 'C13', 'src/sampler.rs', r's/                result\?;\n                Ok\(output\)/                let _ = result;\n                Ok(output)/', 'controller drops the command-loop error'),
  ('m33', 'C13', 'src/sampler.rs', r's/Ok\(Err\(e\)\) => return SamplerWaitResult::Err\(e, None\),/Ok(Err(_e)) => remaining = timeout.checked_sub(start.elapsed()),/', 'wait_timeout keeps waiting after a chain error'),
+ ('m34', 'C09', 'src/transform/adapt/low_rank.rs', r's/self.background_split = self.draws.len\(\);\n        assert/self.background_split = 0;\n        assert/', 'low-rank window: a switch forgets where the background starts (stale draws are never dropped)'),
+ ('m35', 'C09', 'src/transform/adapt/low_rank.rs', r's/math.write_to_slice\(&collector.grad, &mut grad\);\n            self.grads.push_back\(grad\);/math.write_to_slice(&collector.draw, &mut grad);\n            self.grads.push_back(grad);/', 'low-rank window stores the draw as its own gradient'),
+ ('m36', 'C09', 'src/transform/adapt/low_rank.rs', r's/for _ in 0..self.background_split \{/for _ in 1..self.background_split {/', 'low-rank switch keeps one stale draw'),
  ('e01', 'C18', 'src/mclmc.rs', r's/&& self.draw_count == self.switch_draw/&& self.draw_count >= self.switch_draw/', 'EQUIVALENT on reachable states: must not be flagged'),
  ('e02', 'C08', 'src/math/cpu_math.rs', r's/\*mean \+= diff \* diff_scale;\n                \*var \+= diff \* diff;/*mean += diff * diff_scale;\n                *var += diff * (x - *mean);/', 'EQUIVALENT for the property (ratio of variances unchanged): must not be flagged'),
 ]
